@@ -10,6 +10,7 @@ TITLES = {
     '_rf_write_blocks_2': 'rf_write_blocks, 2 blocks (inductive step, gapped and continuous block-by-block mode): same',
     '_rf_write_blocks_3': 'rf_write_blocks, 3 blocks (inductive step, gapped and continuous block-by-block mode): same',
     '_rf_write_blocks_mismatch': 'rf_write_blocks: index arrays of different lengths are always refused before the library is called',
+    '_rf_write_blocks_mismatch2': 'rf_write_blocks: ... also when the block index array is the longer one',
     '_getters_after_close': 'last file / dir / timestamp and the counters remain available after close; writes after close raise IOError',
     '_blocks_witness': 'reachability: an accepted two-block call is reachable',
 }
@@ -24,16 +25,17 @@ cont = bool(kw.get('continuous', False))
 nxt, written = kw.get('nxt', 0), kw.get('written', kw.get('nxt', 0))
 d = tempfile.mkdtemp(); os.makedirs(d + '/ch')
 S = 10**10
-w = drf.DigitalRFWriter(d + '/ch', 'i2', 3600, 1000, S, 10, 1, 'u', is_complex=False, is_continuous=cont, marching_periods=False)
+flat = kind == 'rf_write' and kw.get('raw') not in (None, kw.get('n'))      # caller's array longer than the samples it holds: flat interleaved I/Q
+w = drf.DigitalRFWriter(d + '/ch', 'i2', 3600, 1000, S, 10, 1, 'u', is_complex=flat, is_continuous=cont, marching_periods=False)
 bad = 0
 try:
-    if written > 0: w.rf_write(np.zeros((written, 1), dtype='i2'), next_sample=nxt - written)
+    if written > 0: w.rf_write(np.zeros((written, 2 if flat else 1), dtype='i2'), next_sample=nxt - written)
     elif nxt > 0: print('state (next=%%d, written=0) is not constructible through the API; replaying from a fresh writer' %% nxt); nxt = 0
     pre = (w.get_next_available_sample(), w.get_total_samples_written(), w.get_total_gap_samples())
     n = kw['n']
     if kind == 'rf_write':
         G, B = [pre[0] if kw['ns'] is None else kw['ns']], [0]
-        call = lambda: w.rf_write(np.ones((n, 1), dtype='i2'), kw['ns'])
+        call = (lambda: w.rf_write(np.ones(2 * n, dtype='i2'), kw['ns'])) if flat else (lambda: w.rf_write(np.ones((n, 1), dtype='i2'), kw['ns']))
     else:
         G = [kw[k] for k in ('g0', 'g1', 'g2') if k in kw]; B = [kw[k] for k in ('b0', 'b1', 'b2') if k in kw]
         call = lambda: w.rf_write_blocks(np.ones((n, 1), dtype='i2'), G, B)
@@ -64,7 +66,7 @@ sys.exit(1 if bad else 0)
 def _run(rep, tier, prefix):
     res = chx.run_module('writer', per_condition_timeout=120 if tier == 'quick' else 600)
     replays = {'_rf_write_step': lambda kw: REPLAY % (kw, 'rf_write')}
-    for k in ('_rf_write_blocks_1', '_rf_write_blocks_2', '_rf_write_blocks_3', '_rf_write_blocks_mismatch'):
+    for k in ('_rf_write_blocks_1', '_rf_write_blocks_2', '_rf_write_blocks_3', '_rf_write_blocks_mismatch', '_rf_write_blocks_mismatch2'):
         replays[k] = lambda kw: REPLAY % (kw, 'blocks')
     sigs = {k: prefix + '.py.' + k.strip('_') for k in TITLES}
     chx.report(rep, res, {k: 'python writer: ' + v for k, v in TITLES.items()}, replays=replays, sigs=sigs)
@@ -75,12 +77,16 @@ def c05_part(rep, st, tier):
     rep.assume('python layer: the extension is modelled by the C-level facts decided above (cursor update, rejection rule, continuous-mode '
                'block-by-block writes); numpy index-array ops by a list-backed shim with uint64 wrap / int64 view; _cast_* helpers are identity')
     _run(rep, tier, 'C05')
+    from checks import extglue
+    extglue.run(rep, st, tier)
 
 
 def c19_part(rep, st, tier):
     rep.functions += ['DigitalRFWriter.rf_write', 'DigitalRFWriter.rf_write_blocks', 'DigitalRFWriter.close / getters']
     rep.assume('python layer: the extension is modelled by the C-level facts decided above; inductive step from any state with written + gaps == next')
     _run(rep, tier, 'C19')
+    from checks import extglue
+    extglue.run(rep, st, tier)
 
 
 REGEN = '''
